@@ -485,7 +485,16 @@ func (a *l2ActorRun) trailMsgs(req wire.Message, honest []wire.Message) []wire.M
 
 // mutate is the actor's netsim.Peer.Mutate hook: honest unless armed.
 func (a *l2ActorRun) mutate(p *netsim.Peer, req wire.Message, honest []wire.Message) []wire.Message {
-	if !a.armed.Load() || len(honest) == 0 {
+	if len(honest) == 0 {
+		return honest
+	}
+	if !a.armed.Load() {
+		// An actor that is not armed is an honest peer (answering as late
+		// as those, so that in a focus round only armed actors are free
+		// when the filter calls go out).
+		if d := a.x.delayNs.Load(); d > 0 {
+			time.Sleep(time.Duration(d))
+		}
 		return honest
 	}
 	on := ""
